@@ -607,3 +607,82 @@ def discharge_swap_in_a_third_core_records_what_the_outgoing_assembly_stood_for(
     assert out.p.multiplicity == (1 if (i1, j1) == (0, 0) else 3), "a third-core assembly off the centre stands for three"
     assert inc.p.multiplicity == 1
     assert (out.parent is pool) == track
+
+
+# ----------------------------------------------------------------------------- the constructor, and a history from it
+class ClockStub:
+    """the module `time` as seen from cores.py (Core.timeOfStart is not part of this property)"""
+
+    @staticmethod
+    def time():
+        return 0.0
+
+
+def armiobject_init_contract(self, name):
+    """contract of ArmiObject.__init__ (the parameter collection it creates is viewed as a PMap)"""
+    self.name = name
+    self.parent = None
+    self.cached = {}
+    self._backupCache = None
+    self.p = new(PMap, maxAssemNum=0)
+    self._lumpedFissionProducts = None
+    self.spatialGrid = None
+    self.spatialLocator = CoordinateLocation(0.0, 0.0, 0.0, None)
+
+
+CTOR_STUBS = {"armi.reactor.composites:ArmiObject.getFissileMass": "fissile_contract",
+              "armi.reactor.composites:ArmiObject.getMaxParam": "maxparam_contract",
+              "armi.reactor.grids.hexagonal:HexGrid.getRingPos": "ringpos_contract",
+              "armi.reactor.composites:ArmiObject.__init__": "armiobject_init_contract"}
+CTOR_OVERRIDES = {"armi.reactor.cores:parameters": "ParametersStub", "armi.reactor.cores:time": "ClockStub"}
+
+
+@lemma(gen=GEN, stubs=CTOR_STUBS, overrides=CTOR_OVERRIDES, timeout=90)
+def a_history_from_the_constructor_keeps_the_tables_exact(i1: int, j1: int, i2: int, j2: int, track: bool):
+    """the real constructor Core(name) establishes Inv (empty tables, no tracking); then the history
+    add, add, swap, discharge-swap, remove at symbolic cells keeps it, with every assembly where the history put it"""
+    core = Core("core")
+    assert len(core._children) == 0 and len(core.childrenByLocator) == 0 and len(core.assembliesByName) == 0 and len(core.blocksByName) == 0
+    assert core._trackAssems is False and core.numRings == 0 and core.parent is None
+    # attach it to a reactor and a grid (what the blueprints do)
+    g = hexgrid("full")
+    pool = new(PoolStub, kids=[], parent=None)
+    r = new(Reactor, name="r", p=new(PMap, time=12.5, cycle=3, maxAssemNum=0), excore=new(ExcoreStub, items={"sfp": pool}), parent=None, _children=[], core=core)
+    core.parent, core.spatialGrid, g.armiObject, pool.parent = r, g, core, r
+    core._trackAssems = track
+    core.stationaryBlockFlagsList = ["GRID_PLATE"]
+    assert inv(core, pool), "Inv after construction"
+    assume((i1, j1) != (i2, j2))
+    a1, a2, a7 = assembly(1, 2, "LoadQueue"), assembly(2, 2, "LoadQueue"), assembly(7, 2, "LoadQueue")
+    core.add(a1, g[i1, j1, 0])
+    assert inv(core, pool)
+    core.add(a2, g[i2, j2, 0])
+    assert inv(core, pool) and at(core, i1, j1) is a1 and at(core, i2, j2) is a2
+    fh = new(FuelHandler, o=new(OperatorStub, r=r), moved=[])
+    fh.swapAssemblies(a1, a2)
+    assert inv(core, pool) and at(core, i1, j1) is a2 and at(core, i2, j2) is a1
+    fh.dischargeSwap(a7, a1)
+    assert inv(core, pool) and at(core, i1, j1) is a2 and at(core, i2, j2) is a7
+    assert (a1.parent is pool) == track and ("A0001" in core.assembliesByName) == track
+    core.removeAssembly(a2, discharge=False)
+    assert inv(core, pool) and at(core, i1, j1) is None and at(core, i2, j2) is a7 and len(core._children) == 1 and core._children[0] is a7
+    assert "A0002" not in core.assembliesByName and a2.parent is None
+    assert core.numRings == max(hexring(i1, j1), hexring(i2, j2))
+
+
+# ----------------------------------------------------------------------------- what a location key is
+@lemma(gen={"i1": (-2, 2), "j1": (-2, 2), "i2": (-2, 2), "j2": (-2, 2)})
+def a_location_key_is_its_indices_and_its_grid(i1: int, j1: int, i2: int, j2: int):
+    """the real IndexLocation as dictionary key (what childrenByLocator relies on): two locators are the same key iff
+    they have the same indices AND belong to the same grid; the bare index tuple finds the locator of any grid"""
+    g, h = new(Marker), new(Marker)
+    a, b, c = IndexLocation(i1, j1, 0, g), IndexLocation(i2, j2, 0, g), IndexLocation(i1, j1, 0, h)
+    d = {a: 1}
+    assert a in d and (b in d) == ((i1, j1) == (i2, j2))
+    assert c not in d, "same indices in another grid: a different key"
+    assert (i1, j1, 0) in d and IndexLocation(i1, j1, 0, None) not in d
+    d[b] = 2
+    assert len(d) == (1 if (i1, j1) == (i2, j2) else 2) and d[a] == (2 if (i1, j1) == (i2, j2) else 1)
+    d[c] = 3
+    assert d[(i1, j1, 0)] == d[a], "an index tuple finds the first equal stored key"
+    assert d.pop(b) == 2 and (a in d) == ((i1, j1) != (i2, j2)) and c in d
